@@ -181,6 +181,13 @@ func (r *scopeRegistry) Subscope(parent *scope, prefix string, tags map[string]s
 	subscopeBucket := r.subscopes[h.Sum64()%uint64(len(r.subscopes))]
 
 	subscopeBucket.mu.RLock()
+	// n.b. Check again under the lock: the root's final report purges every
+	//      bucket under its write lock, so a scope must neither be reported nor
+	//      registered here once the root is closed.
+	if r.root.closed.Load() {
+		subscopeBucket.mu.RUnlock()
+		return NoopScope.(*scope)
+	}
 	// buf is stack allocated and casting it to a string for lookup from the cache
 	// as the memory layout of []byte is a superset of string the below casting is safe and does not do any alloc
 	// However it cannot be used outside of the stack; a heap allocation is needed if that string needs to be stored
@@ -231,6 +238,10 @@ func (r *scopeRegistry) Subscope(parent *scope, prefix string, tags map[string]s
 
 	subscopeBucket.mu.Lock()
 	defer subscopeBucket.mu.Unlock()
+
+	if r.root.closed.Load() {
+		return NoopScope.(*scope)
+	}
 
 	if s, ok := r.lockedLookup(subscopeBucket, sanitizedKey); ok {
 		if _, ok = r.lockedLookup(subscopeBucket, unsanitizedKey); !ok {
